@@ -413,6 +413,45 @@ def w1(ctx):
                   'still moves when the siblings before it have another size; the working copy keeps '
                   'stale nodes (wrong False / InternalError)'
                   % (guards[0].ast.text(4) if guards else '?'), c.loc)
+    # the re-ordering happens whenever the two key lists differ: from the "differ" outcome of the
+    # comparison of the key lists every path on to the rest of the arm passes a placing copy - no
+    # further test ("the siblings all have the same size") can skip it, because siblings that keep
+    # their offsets still differ in content
+    from .common import unnegate as _un
+    key_cmp = []
+    for cn in cfg.nodes:
+        if cn.kind != 'cond' or cn.ast is None:
+            continue
+        a, pos = _un(cn.ast)
+        if a is not None and a.kind in CALL_KINDS and a.callee_name() in ('not_equal', 'equal') and \
+                'keys' in a.text(5):
+            differ_edge = (a.callee_name() == 'not_equal') == pos
+            key_cmp.append((cn, differ_edge))
+    ctx.require(key_cmp, 'IsPrefix: comparison of the two key lists not found')
+    # (the loop that holds the placing copy counts: it runs once per entry of the index map)
+    wn_all = set()
+    for c in writes:
+        ls_ = [a for a in ancestors(c, parent) if a.kind in LOOP_KINDS]
+        if not ls_:
+            if cfg.cnode_of(c) is not None:
+                wn_all.add(cfg.cnode_of(c))
+            continue
+        inside_ = {cfg.cnode_of(x) for x in ls_[0].walk() if cfg.cnode_of(x) is not None}
+        cands_ = {w for (v, w) in cfg.back_edges if v in inside_}
+        wn_all |= {w for w in cands_ if all(cfg.dominates(w, x) for x in cands_)} or inside_
+    for cn, differ_edge in key_cmp[:1]:
+        starts = [w for (w, lab) in cfg.succ[cn.idx] if lab is differ_edge]
+        # where the arm goes on after the dict handling: the node-count comparison of the loop tail
+        tails = [x.idx for x in cfg.nodes if x.kind == 'cond' and x.ast is not None and
+                 'num_nodes' in x.ast.text(4) and x.ast.kind == 'BinaryOperator' and x.ast.op in ('>', '<', '<=', '>=')
+                 and cfg.dominates(cn.idx, x.idx) is False]
+        reach = cfg.forward_reachable(starts, skip_nodes=wn_all)
+        escapes = [t for t in tails if t in reach]
+        ctx.check('IsPrefix/reorder-whenever-the-key-orders-differ', not escapes,
+                  'IsPrefix: key lists that differ always lead to the re-ordering of the children',
+                  'IsPrefix: with differing key orders the re-ordering of the children can be skipped by a '
+                  'further test: children are then compared position by position under the wrong keys '
+                  '(wrong True and wrong False)', cn.ast.loc)
     n = 0
     for v in f.body.find('VarDecl'):
         if not v.kids or v.kids[-1] is None:
